@@ -113,6 +113,34 @@ def check_inst(mod, run, d, tag):
     return n
 
 
+def p5_delete_stays_inside(mod, run, fnbase, tag, B):
+    """P5: positional Delete(dst, len, offset) reads and writes elements 0 .. len-1 only: every index it hands to Set / Get is provably
+    at most len - 1 (the element one past the array belongs to whatever is stored next)"""
+    fn = mod.fn(fnbase + "Delete")
+    if fn is None: return 0
+    lk = fn.param_index("len")
+    if lk is None: raise AnalysisBroken("%sDelete: parameter 'len' not found" % fnbase)
+    fi, F, P = B.fp(fn)
+    L = fi.lin({"k": "arg", "v": lk, "t": fn.params[lk]["t"]})
+    n = 0
+    for c in fn.calls():
+        cal = c.get("callee") or ""
+        if not (cal.startswith(fnbase) and (cal.endswith("Set") or cal.endswith("Get") or cal.endswith("SetHalf") or cal.endswith("SetIncr"))): continue
+        n += 1
+        idx = fi.lin(c.ops[1])
+        ok = P.prove_at(idx - L + 1, c.block)
+        run.check(ok, "P5-delete-touches-only-the-array", {"fn": fn.name, "call": cal, "index": repr(idx), "set": tag},
+                  Finding("P5-delete-reaches-past-the-array", fn.name, cal, "index", "%s passes the element index %r to %s at %s; it is not provably <= len - 1: the element behind the array (other data in the same buffer, or memory past an exactly sized one) is read or overwritten" % (
+                      fn.name, idx, cal, loc9(c)), loc=loc9(c)))
+    if n == 0: raise AnalysisBroken("%sDelete: no Set/Get call found" % fnbase)
+    return n
+
+
+def loc9(i):
+    from ..report import rel
+    return "%s:%s" % (rel(i.d.get("file", i.fn.file)), i.d.get("line", "?"))
+
+
 def load(which, cfg="ndebug"):
     src = os.path.join(VERIF, "witness", "packed_%s.c" % which)
     tab = json.load(open(os.path.join(VERIF, "witness", "packed_%s.json" % which)))
@@ -148,7 +176,16 @@ def run(tier):
     from ..common import lib_module
     lm = lib_module("ndebug")
     nl = check_inst(lm, run, dict(bits=12, slot=8, compact=False, value_bits=16, fn="varintPacked12"), "library")
-    per["library"] = {"instantiations": 1, "cases": nl}
+    from ..core import World
+    from ..bounds import Bounds
+    n5 = p5_delete_stays_inside(lm, run, "varintPacked12", "library", Bounds(World(lm)))
+    # one generated instantiation per slot type as well (the code is the same macro text, the index type differs)
+    qm, qtab = load("quick"); Bq = Bounds(World(qm)); seen_slots = set()
+    for d in qtab:
+        if d["slot"] in seen_slots or qm.fn(d["fn"] + "Delete") is None: continue
+        seen_slots.add(d["slot"]); n5 += p5_delete_stays_inside(qm, run, d["fn"], "quick", Bq)
+    per["library"] = {"instantiations": 1, "cases": nl, "delete_index_obligations": n5}
+    run.floor("Delete index obligations", n5, 2)
     controls(run)
     run.coverage.update({"sets": per, "exhaustive": False,
                          "eligibility": "BITS <= SLOT + gcd(BITS,SLOT) (never three slots); compact (always-two-slots path) only when BITS > SLOT",
